@@ -148,6 +148,8 @@ func clearCaches() {
 	regionCache = map[*Prog]map[*ssa.Function]bool{}
 	allocNames = map[*ssa.Function]map[*ssa.Alloc]string{}
 	helperFactsMemo = map[*ssa.Function]*siteFacts{}
+	nonNilFnMemo = map[*ssa.Function]int{}
+	constCmpMemo = map[*ssa.Function]map[*ssa.BasicBlock]*constCmpT{}
 	pureMemo = map[*ssa.Function]*string{}
 	tupleMemo = map[*ssa.Function]map[int]*string{}
 	runtime.GC()
